@@ -165,10 +165,28 @@ def run(ctx):
         return c, res
     with ThreadPoolExecutor(max_workers=8) as ex:
         builds = dict(ex.map(build, cfgs))
+    # a pair whose first build reuses the build directory of a run with the opposite --full setting
+    d0, av0, m0, f0 = base[0]
+    tree0 = os.path.join(ctx.scratch, 'tree-reuse')
+    lib.copy_tree(tree0)
+    lib.real_build(ctx, lib.Cfg(d0, av0[0], av0[1], 'complain', not f0), tree=tree0)
+    _, _, rc0 = lib.real_build(ctx, lib.Cfg(d0, av0[0], av0[1], 'complain', f0), tree=tree0)
+    if rc0 == 0:
+        res = {}
+        root = os.path.join(tree0, '.build')
+        for dd, dirs, files in os.walk(root):
+            for fn in files + [x for x in dirs if os.path.islink(os.path.join(dd, x))]:
+                p_ = os.path.join(dd, fn)
+                rel = os.path.relpath(p_, root)
+                res[rel] = ('L:' + os.readlink(p_)) if os.path.islink(p_) else open(p_, encoding='utf-8', errors='surrogateescape').read()
+        key = (d0, av0, 'complain-after-other-full', f0)
+        builds[key] = res
+        pairs.append(('mode', key, (d0, av0, 'enforce', f0)))
+    shutil.rmtree(tree0, ignore_errors=True)
     nlines = nfiles = 0
     for axis, ca, cb in pairs:
         A, B = builds[ca], builds[cb]
-        name = '%s: %s vs %s' % (axis, lib.Cfg(ca[0], ca[1][0], ca[1][1], ca[2], ca[3]).name(), lib.Cfg(cb[0], cb[1][0], cb[1][1], cb[2], cb[3]).name())
+        name = '%s: %s vs %s' % (axis, '%s-abi%d-v%s-%s-%s' % (ca[0], ca[1][0], ca[1][1], ca[2], 'full' if ca[3] else 'normal'), '%s-abi%d-v%s-%s-%s' % (cb[0], cb[1][0], cb[1][1], cb[2], 'full' if cb[3] else 'normal'))
         if A is None or B is None:
             ctx.violation('prebuild failed (%s)' % name, {'pair': name})
             continue
